@@ -1,5 +1,7 @@
 import RedisVerif.Model.Grammar
+import RedisVerif.Model.GrammarDesc
 import RedisVerif.Lemmas.Grammar
+import RedisVerif.Lemmas.GrammarShape
 
 /-
   M7 / GrammarTable — the command tables (one `Spec` per command name) of the three grammars and
@@ -13,22 +15,41 @@ namespace RedisVerif.Grammar
 namespace CB
 open Bodies
 
-def plain := CustomBody.plain
-def set : CustomBody := ⟨Bodies.set, prefixV 2 (optVariant setOpts), Sound.set⟩
-def luaSet : CustomBody := ⟨Bodies.luaSet, prefixV 2 (optVariant luaSetOpts), Sound.luaSet⟩
-def expire (c : Bytes) : CustomBody := ⟨Bodies.expire c, prefixV 2 (optVariant expireOpts), Sound.expire c⟩
-def getex : CustomBody := ⟨Bodies.getex, prefixV 1 (optVariant getexOpts), Sound.getex⟩
+def set : CustomBody := ⟨Bodies.set, prefixV 2 (optVariant setOpts), Sound.set, Desc.set, Shape.set, Fin.set, Chk.set⟩
+def luaSet : CustomBody := ⟨Bodies.luaSet, prefixV 2 (optVariant luaSetOpts), Sound.luaSet, Desc.luaSet, Shape.luaSet, Fin.luaSet, Chk.luaSet⟩
+def expire (c : Bytes) : CustomBody :=
+  ⟨Bodies.expire c, prefixV 2 (optVariant expireOpts), Sound.expire c, Desc.expire c, Shape.expire c, Fin.expire c, Chk.expire c⟩
+def getex : CustomBody := ⟨Bodies.getex, prefixV 1 (optVariant getexOpts), Sound.getex, Desc.getex, Shape.getex, Fin.getex, Chk.getex⟩
 def zrangebyscore (off cnt : Arg) (m : Lit) (u : Fmt) : CustomBody :=
-  ⟨Bodies.zrangebyscore off cnt m u, prefixV 3 (optVariant (zrbsOpts off cnt m)), Sound.zrangebyscore off cnt m u⟩
+  ⟨Bodies.zrangebyscore off cnt m u, prefixV 3 (optVariant (zrbsOpts off cnt m)), Sound.zrangebyscore off cnt m u,
+   Desc.zrangebyscore off cnt m u, Shape.zrangebyscore off cnt m u, Fin.zrangebyscore off cnt m u, Chk.zrangebyscore off cnt m u⟩
 def scan (c : Bytes) (withKey : Bool) (u : Fmt) : CustomBody :=
-  ⟨Bodies.scan c withKey u, prefixV (if withKey then 2 else 1) (optVariant scanOptTbl), Sound.scan c withKey u⟩
-def sort : CustomBody := ⟨Bodies.sort, prefixV 1 (optVariant sortOpts), Sound.sort⟩
-def zadd (score : Arg) : CustomBody := ⟨Bodies.zadd score, prefixV 1 (flagsVariant zaddFlags), Sound.zadd score⟩
-def lmove : CustomBody := ⟨Bodies.lmove, prefixV 2 wordsVariant, Sound.lmove⟩
-def zrange (c : Bytes) : CustomBody := ⟨Bodies.zrange c, prefixV 3 wordsVariant, Sound.zrange c⟩
-def command : CustomBody := ⟨Bodies.command, headVariant, Sound.command⟩
-def aclDryrun : CustomBody := ⟨Bodies.aclDryrun, prefixV 1 headVariant, Sound.aclDryrun⟩
-def aclLog : CustomBody := ⟨Bodies.aclLog, wordsVariant, Sound.aclLog⟩
+  ⟨Bodies.scan c withKey u, prefixV (if withKey then 2 else 1) (optVariant scanOptTbl), Sound.scan c withKey u,
+   Desc.scan c withKey u, Shape.scan c withKey u, Fin.scan c withKey u, Chk.scan c withKey u⟩
+def sort : CustomBody := ⟨Bodies.sort, prefixV 1 (optVariant sortOpts), Sound.sort, Desc.sort, Shape.sort, Fin.sort, Chk.sort⟩
+def zadd (score : Arg) : CustomBody :=
+  ⟨Bodies.zadd score, prefixV 1 (flagsVariant zaddFlags), Sound.zadd score, Desc.zadd score, Shape.zadd score, Fin.zadd score, Chk.zadd score⟩
+def lmove : CustomBody := ⟨Bodies.lmove, prefixV 2 wordsVariant, Sound.lmove, Desc.lmove, Shape.lmove, Fin.lmove, Chk.lmove⟩
+def zrange (c : Bytes) : CustomBody := ⟨Bodies.zrange c, prefixV 3 wordsVariant, Sound.zrange c, Desc.zrange c, Shape.zrange c, Fin.zrange c, Chk.zrange c⟩
+def command : CustomBody := ⟨Bodies.command, headVariant, Sound.command, Desc.command, Shape.command, Fin.command, Chk.command⟩
+def aclDryrun : CustomBody := ⟨Bodies.aclDryrun, prefixV 1 headVariant, Sound.aclDryrun, Desc.aclDryrun, Shape.aclDryrun, Fin.aclDryrun, Chk.aclDryrun⟩
+def aclLog : CustomBody := ⟨Bodies.aclLog, wordsVariant, Sound.aclLog, Desc.aclLog, Shape.aclLog, Fin.aclLog, Chk.aclLog⟩
+-- bodies without keyword positions
+def ping := CustomBody.plain Desc.ping Bodies.ping Shape.ping Fin.ping Chk.ping
+def select := CustomBody.plain Desc.select Bodies.select Shape.select Fin.select Chk.select
+def auth := CustomBody.plain Desc.auth Bodies.auth Shape.auth Fin.auth Chk.auth
+def eval (c : Bytes) (l : Lit) := CustomBody.plain (Desc.eval c l) (Bodies.eval c l) (Shape.eval c l) (Fin.eval c l) (Chk.eval c l)
+def setex (px : Bool) := CustomBody.plain (Desc.setex px) (Bodies.setex px) (Shape.setex px) (Fin.setex px) (Chk.setex px)
+def spop := CustomBody.plain Desc.spop Bodies.spop Shape.spop Fin.spop Chk.spop
+def setrange := CustomBody.plain Desc.setrange Bodies.setrange Shape.setrange Fin.setrange Chk.setrange
+def setbit := CustomBody.plain Desc.setbit Bodies.setbit Shape.setbit Fin.setbit Chk.setbit
+def getbit := CustomBody.plain Desc.getbit Bodies.getbit Shape.getbit Fin.getbit Chk.getbit
+def incrbyfloat := CustomBody.plain Desc.incrbyfloat Bodies.incrbyfloat Shape.incrbyfloat Fin.incrbyfloat Chk.incrbyfloat
+def optStr (c : Bytes) := CustomBody.plain (Desc.optStr c) (Bodies.optStr c) (Shape.optStr c) (Fin.optStr c) (Chk.optStr c)
+def aclGenpass := CustomBody.plain Desc.aclGenpass Bodies.aclGenpass Shape.aclGenpass Fin.aclGenpass Chk.aclGenpass
+def stub (text : Bytes) := CustomBody.plain (Desc.stub text) (fun _ => .ok ⟨s2b "Unknown", [.s text]⟩) (Shape.stub text) (Fin.stub text) (Chk.stub text)
+def luaExpire := CustomBody.plain Desc.luaExpire Bodies.luaExpire Shape.luaExpire Fin.luaExpire Chk.luaExpire
+def luaZrange := CustomBody.plain Desc.luaZrange Bodies.luaZrange Shape.luaZrange Fin.luaZrange Chk.luaZrange
 
 end CB
 
@@ -44,14 +65,14 @@ def aclSubs : List Spec :=
     fixed "GETUSER" "AclGetUser" (s2b "ACL GETUSER requires 1 argument") [aStr],
     manySpec "SETUSER" "AclSetUser" 1 (s2b "ACL SETUSER requires at least 1 argument") [aStr] aStr,
     manySpec "DELUSER" "AclDelUser" 1 (s2b "ACL DELUSER requires at least 1 argument") [] aStr,
-    customSpec "CAT" .any [] (CB.plain (optStr (s2b "AclCat"))),
-    customSpec "GENPASS" .any [] (CB.plain aclGenpass),
+    customSpec "CAT" .any [] (CB.optStr (s2b "AclCat")),
+    customSpec "GENPASS" .any [] CB.aclGenpass,
     customSpec "DRYRUN" (.atLeast 2) (wrongArgs "acl|dryrun") CB.aclDryrun,
     customSpec "LOG" (.between 0 1) (wrongArgs "acl|log") CB.aclLog,
     -- stubs for unimplemented ACL sub-commands (both parsers)
-    customSpec "HELP" .any [] (CB.plain (fun _ => .ok ⟨s2b "Unknown", [.s (s2b "ACL HELP")]⟩)),
-    customSpec "LOAD" .any [] (CB.plain (fun _ => .ok ⟨s2b "Unknown", [.s (s2b "ACL LOAD")]⟩)),
-    customSpec "SAVE" .any [] (CB.plain (fun _ => .ok ⟨s2b "Unknown", [.s (s2b "ACL SAVE")]⟩)) ]
+    customSpec "HELP" .any [] (CB.stub (s2b "ACL HELP")),
+    customSpec "LOAD" .any [] (CB.stub (s2b "ACL LOAD")),
+    customSpec "SAVE" .any [] (CB.stub (s2b "ACL SAVE")) ]
 
 def scriptSubs : List Spec :=
   [ fixed "LOAD" "ScriptLoad" (s2b "SCRIPT LOAD requires 1 argument") [aStr],
@@ -86,26 +107,26 @@ def debugDflt (sub : Bytes) (rest : List Bytes) : Res :=
 
 open Bodies in
 def table : List Entry :=
-  [ .cmd (customSpec "PING" .any [] (CB.plain ping)),
+  [ .cmd (customSpec "PING" .any [] CB.ping),
     .cmd (const "INFO" "Info"), .cmd (const "TIME" "Time"), .cmd (const "DBSIZE" "DbSize"),
     .family (s2b "CONFIG") (wrongArgs "config") configSubs
       (fun sub _ => .error (.body (.fmt .configUnknown (lower sub)))),
-    .cmd (customSpec "SELECT" (.exact 1) (wrongArgs "select") (CB.plain select)),
+    .cmd (customSpec "SELECT" (.exact 1) (wrongArgs "select") CB.select),
     .cmd (fixed "ECHO" "Echo" (wrongArgs "echo") [aSds]),
-    .cmd (customSpec "AUTH" (.between 1 2) (s2b "AUTH requires 1 or 2 arguments") (CB.plain auth)),
+    .cmd (customSpec "AUTH" (.between 1 2) (s2b "AUTH requires 1 or 2 arguments") CB.auth),
     .family (s2b "ACL") (s2b "ACL requires a subcommand") aclSubs
       (fun sub _ => .error (.body (.fmt .unknownAcl sub))),
     .cmd (const "FLUSHDB" "FlushDb"), .cmd (const "FLUSHALL" "FlushAll"),
     .cmd (const "MULTI" "Multi"), .cmd (const "EXEC" "Exec"), .cmd (const "DISCARD" "Discard"),
     .cmd (manySpec "WATCH" "Watch" 1 (reqAtLeast "WATCH" 1) [] aStr),
     .cmd (const "UNWATCH" "Unwatch"),
-    .cmd (customSpec "EVAL" (.atLeast 2) (reqAtLeast "EVAL" 2) (CB.plain (eval (s2b "Eval") .evalKeys))),
-    .cmd (customSpec "EVALSHA" (.atLeast 2) (reqAtLeast "EVALSHA" 2) (CB.plain (eval (s2b "EvalSha") .evalshaKeys))),
+    .cmd (customSpec "EVAL" (.atLeast 2) (reqAtLeast "EVAL" 2) (CB.eval (s2b "Eval") .evalKeys)),
+    .cmd (customSpec "EVALSHA" (.atLeast 2) (reqAtLeast "EVALSHA" 2) (CB.eval (s2b "EvalSha") .evalshaKeys)),
     .family (s2b "SCRIPT") (s2b "SCRIPT requires a subcommand") scriptSubs
       (fun sub _ => .error (.body (.fmt .unknownScript sub))),
     .cmd (fixed "GET" "Get" (wrongArgs "get") [aStr]),
     .cmd (customSpec "SET" (.atLeast 2) (reqAtLeast "SET" 2) CB.set),
-    .cmd (customSpec "SETEX" (.exact 3) (req "SETEX" 3) (CB.plain (setex false))),
+    .cmd (customSpec "SETEX" (.exact 3) (req "SETEX" 3) (CB.setex false)),
     .cmd (fixed "SETNX" "SetNx" (req "SETNX" 2) [aStr, aSds]),
     .cmd (manySpec "DEL" "Del" 1 (reqAtLeast "DEL" 1) [] aStr),
     .cmd (manySpec "EXISTS" "Exists" 1 (reqAtLeast "EXISTS" 1) [] aStr),
@@ -144,7 +165,7 @@ def table : List Entry :=
     .cmd (fixed "SISMEMBER" "SIsMember" (req "SISMEMBER" 2) [aStr, aSds]),
     .cmd (manySpec "SREM" "SRem" 2 (reqAtLeast "SREM" 2) [aStr] aSds),
     .cmd (fixed "SCARD" "SCard" (req "SCARD" 1) [aStr]),
-    .cmd (customSpec "SPOP" (.between 1 2) (s2b "SPOP requires 1 or 2 arguments") (CB.plain spop)),
+    .cmd (customSpec "SPOP" (.between 1 2) (s2b "SPOP requires 1 or 2 arguments") CB.spop),
     .cmd { name := s2b "HSET", arity := .oddAtLeast 3, arityErr := s2b "HSET requires key and field-value pairs", body := .pairs (s2b "HSet") [aStr] aSds aSds },
     .cmd (fixed "HGET" "HGet" (req "HGET" 2) [aStr, aSds]),
     .cmd (fixed "HGETALL" "HGetAll" (req "HGETALL" 1) [aStr]),
@@ -174,13 +195,13 @@ def table : List Entry :=
     .family (s2b "DEBUG") (wrongArgs "debug") debugSubs debugDflt,
     .cmd (fixed "GETRANGE" "GetRange" (req "GETRANGE" 3) [aStr, aInt, aInt]),
     .cmd (fixed "SUBSTR" "GetRange" (req "GETRANGE" 3) [aStr, aInt, aInt]),
-    .cmd (customSpec "SETRANGE" (.exact 3) (req "SETRANGE" 3) (CB.plain setrange)),
-    .cmd (customSpec "SETBIT" (.exact 3) (wrongArgs "setbit") (CB.plain setbit)),
-    .cmd (customSpec "GETBIT" (.exact 2) (wrongArgs "getbit") (CB.plain getbit)),
+    .cmd (customSpec "SETRANGE" (.exact 3) (req "SETRANGE" 3) CB.setrange),
+    .cmd (customSpec "SETBIT" (.exact 3) (wrongArgs "setbit") CB.setbit),
+    .cmd (customSpec "GETBIT" (.exact 2) (wrongArgs "getbit") CB.getbit),
     .cmd (customSpec "GETEX" (.atLeast 1) (wrongArgs "getex") CB.getex),
     .cmd (fixed "GETDEL" "GetDel" (req "GETDEL" 1) [aStr]),
-    .cmd (customSpec "INCRBYFLOAT" (.exact 2) (wrongArgs "incrbyfloat") (CB.plain incrbyfloat)),
-    .cmd (customSpec "PSETEX" (.exact 3) (req "PSETEX" 3) (CB.plain (setex true))),
+    .cmd (customSpec "INCRBYFLOAT" (.exact 2) (wrongArgs "incrbyfloat") CB.incrbyfloat),
+    .cmd (customSpec "PSETEX" (.exact 3) (req "PSETEX" 3) (CB.setex true)),
     .cmd (fixed "EXPIRETIME" "ExpireTime" (req "EXPIRETIME" 1) [aStr]),
     .cmd (fixed "PEXPIRETIME" "PExpireTime" (req "PEXPIRETIME" 1) [aStr]),
     .cmd (manySpec "UNLINK" "Del" 1 (reqAtLeast "UNLINK" 1) [] aStr),
@@ -247,7 +268,7 @@ def luaTable : List Entry :=
     .cmd (manySpec "SREM" "SRem" 2 (s2b "SREM requires key and at least 1 member") [aStr] aSds),
     .cmd (luaKey "SMEMBERS" "SMembers"),
     .cmd (manySpec "EXISTS" "Exists" 1 (reqAtLeast "EXISTS" 1) [] aStr),
-    .cmd (customSpec "EXPIRE" (.exact 2) (req "EXPIRE" 2) (CB.plain luaExpire)),
+    .cmd (customSpec "EXPIRE" (.exact 2) (req "EXPIRE" 2) CB.luaExpire),
     .cmd (luaKey "TTL" "Ttl"), .cmd (luaKey "TYPE" "TypeOf"),
     .cmd (fixed "HINCRBY" "HIncrBy" (req "HINCRBY" 3) [aStr, aSds, aIntE .luaHincrbyInt]),
     .cmd (fixed "LRANGE" "LRange" (req "LRANGE" 3) [aStr, aIntE .luaLrangeStart, aIntE .luaLrangeStop]),
@@ -258,7 +279,7 @@ def luaTable : List Entry :=
     .cmd (customSpec "ZADD" (.atLeast 3) (s2b "ZADD requires key and score-member pairs")
             (CB.zadd { kind := .flt, onErr := some .luaZaddScore })),
     .cmd (manySpec "ZREM" "ZRem" 2 (s2b "ZREM requires key and at least 1 member") [aStr] aSds),
-    .cmd (customSpec "ZRANGE" (.exact 3) (req "ZRANGE" 3) (CB.plain luaZrange)),
+    .cmd (customSpec "ZRANGE" (.exact 3) (req "ZRANGE" 3) CB.luaZrange),
     .cmd (fixed "ZSCORE" "ZScore" (req "ZSCORE" 2) [aStr, aSds]),
     .cmd (luaKey "ZCARD" "ZCard"),
     .cmd (fixed "ZCOUNT" "ZCount" (req "ZCOUNT" 3) [aStr, aStr, aStr]),
